@@ -1,3 +1,4 @@
+import Mdsort.Proofs.GenBridge
 import Mdsort.Proofs.WorldOwn
 import Mdsort.Proofs.EvalList
 
@@ -64,12 +65,12 @@ theorem execStatus_kind (s : Nat) :
   · have hs : wifsignaled s = false := by
       simp only [wifexited, wifsignaled, beq_iff_eq] at he ⊢
       simp [he]
-    simp only [he, hs, if_true, Bool.false_eq_true, if_false, beq_iff_eq]
+    simp only [he, hs, if_true, Bool.false_eq_true, if_false, beq_iff_eq, Gen_execFatalExit_eq, Gen_execFatalValue_eq]
   · have he' : wifexited s = false := by simpa using he
     by_cases hs : wifsignaled s = true
-    · simp only [he', hs, if_true, Bool.false_eq_true, if_false]
+    · simp only [he', hs, if_true, Bool.false_eq_true, if_false, Gen_execSignalBase_eq]
     · have hs' : wifsignaled s = false := by simpa using hs
-      simp only [he', hs', Bool.false_eq_true, if_false]
+      simp only [he', hs', Bool.false_eq_true, if_false, Gen_execInitialValue_eq]
 
 /-- `exec()` returns 0 exactly for a child that exited with status 0. -/
 theorem execStatus_eq_zero_iff (s : Nat) : execStatus s = 0 ↔ waitKind s = .exited 0 := by
